@@ -85,6 +85,10 @@ def run(ck):
                 rows_t[i] = random_alignment(rng, [seqs[i]], len(rows_r[0]) - len(seqs[i]))[0]; nt = list(names); expect = None
             else:                # identical
                 rows_t = list(rows_r); nt = list(names); expect = 100.0
+            if k % 7 == 3:      # a row that consists of gaps only (readers accept it; its (residue, gap) relations count for the others)
+                names = list(names) + ['gaponly']; nt = list(nt) + ['gaponly']
+                rows_r = list(rows_r) + ['-' * len(rows_r[0])]; rows_t = list(rows_t) + ['-' * len(rows_t[0])]
+                seqs = list(seqs) + ['']
             # both files need at least one gap character to be recognised as alignments
             if not any('-' in r for r in rows_r) or not any('-' in r for r in rows_t):
                 continue
@@ -98,6 +102,25 @@ def run(ck):
                                          ','.join('%s:%s' % (gen.hexs(n), gen.hexs(r)) for n, r in zip(nt, rows_t))))
             meta.append((names, rows_r, nt, rows_t, expect, mode))
             ck.count('mode:%d' % mode)
+        # scale: counters beyond 2^24 and 2^31 relations (C ints, float mantissas): a large alignment against itself with
+        # its rows reversed and one all-gap column inserted must score exactly 100 (C17_same_alignment_scores_100 covers
+        # all totals below 2^46); too large for the extracted model and the Python definition, so only the closed form
+        for (NN, LL) in ([(130, 1000), (4700, 100)] if ck.tier == 'quick' else [(130, 1000), (4700, 100), (1500, 1000), (15000, 12)]):
+            big = []
+            for i in range(NN):
+                sq = gen.rand_seq(rng, gen.DNA, LL); pp = rng.below(LL + 1)
+                big.append(sq[:pp] + '-' + sq[pp:])
+            hh = rng.below(LL + 1)
+            fr = os.path.join(tmp, 'bigr%d_%d.fa' % (NN, LL)); ft = os.path.join(tmp, 'bigt%d_%d.fa' % (NN, LL))
+            open(fr, 'w').write(''.join('>s%d\n%s\n' % (i, r) for i, r in enumerate(big)))
+            open(ft, 'w').write(''.join('>s%d\n%s\n' % (i, big[i][:hh] + '-' + big[i][hh:]) for i in reversed(range(NN))))
+            rb = ck.run_lines(kvh, ['cmp %s %s' % (fr, ft)], timeout=1200)[0]
+            ck.evaluations += 1
+            ck.count('scale:%dx%d (%d relations)' % (NN, LL, (NN - 1) * NN * LL))
+            if not rb.startswith('OK') or int(rb.split()[1]) != fbits(100.0):
+                wit.append({'kind': 'not-100-for-same-alignment-at-scale', 'rows': NN, 'residues_per_row': LL, 'relations': (NN - 1) * NN * LL,
+                            'generator': 'seed %d: %d random DNA rows of %d residues with one gap each, against the same rows reversed with an all-gap column at %d' % (ck.seed, NN, LL, hh),
+                            'implementation': rb[:200]})
         impl = ck.run_lines(kvh, lines)
         mod = ck.run_lines(ck.model(), mlines)
         ck.evaluations += len(lines)
